@@ -60,7 +60,7 @@ Definition FromStr32 (s : list Z) (frombit tobit : Z) : option (Z * Z) :=
     | None => None
     | Some m =>
       (* b >> uint(40-spanSize): a negative count converts to a huge uint, result 0 *)
-      let sh := 40 - spanSize in
+      let sh := i32 (40 - spanSize) in
       Some (blen, Z.land (if sh <? 0 then 0 else shr64 b sh) m)
     end
   end.
@@ -70,7 +70,7 @@ Definition NewPathChk (searchingBits length height : Z) : option Z :=
   match MaskAt length with
   | None => None
   | Some m =>
-    let sh := height - length in
+    let sh := i32 (height - length) in
     Some (Z.lor (shl64 searchingBits 32) (if sh <? 0 then 0 else shl64 m sh))
   end.
 
